@@ -629,7 +629,10 @@ class Interp:
     # ------------------------------------------------------------------ calls
     def make_func(self, native):
         """Interpreted view of a native repository function."""
-        fi, node = S.find_node_for_code(native.__code__)
+        if native.__code__.co_filename == "<string>":
+            fi, node = S.find_generated(native)      # exec()-generated: matched by bytecode with the running function
+        else:
+            fi, node = S.find_node_for_code(native.__code__)
         closure = None
         if native.__closure__:
             closure = {name: cell for name, cell in zip(native.__code__.co_freevars, native.__closure__)}
@@ -656,7 +659,7 @@ class Interp:
             if sm is not None:
                 # modular step: the callee is represented by its (separately proved) contract
                 getattr(self, "summaries_used", set()).add(sm.target)
-                fi, fnode = S.find_node_for_code(fn.__code__)
+                fi, fnode = S.find_node_for_code(fn.__code__) if fn.__code__.co_filename != "<string>" else S.find_generated(fn)
                 S.record_use(fi, fnode, f"{fn.__module__}:{fn.__qualname__} (via contract)")
                 return sm.handler(self, args, kwargs, node)
             return self.call_func(self.make_func(fn), args, kwargs, node)
